@@ -239,6 +239,22 @@ pub fn run_guarded(prop: &dyn Property, tapes: &Tapes, st: &mut Stats) -> Result
     }
 }
 
+/// deterministic list of tapes for the non-proptest parts (subprocess slices)
+pub fn gen_tapes(prop: &dyn Property, seed: u64, n: usize) -> Vec<Tapes> {
+    use proptest::strategy::ValueTree;
+    let (na, nb, nc) = prop.tape_sizes();
+    let cfg = Config { failure_persistence: None, ..Config::default() };
+    let rng = proptest::test_runner::TestRng::from_seed(RngAlgorithm::ChaCha, &mix(seed, prop.id(), 0xffff));
+    let mut runner = TestRunner::new_with_rng(cfg, rng);
+    let strat = (vec(any::<u8>(), 0..=na), vec(any::<u8>(), 0..=nb), vec(any::<u8>(), 0..=nc));
+    (0..n)
+        .map(|_| {
+            let (a, b, c) = strat.new_tree(&mut runner).expect("new_tree").current();
+            Tapes { a, b, c }
+        })
+        .collect()
+}
+
 pub struct Outcome {
     pub stats: Stats,
     pub failure: Option<(Failure, Value)>, // failure + replay payload
@@ -445,6 +461,9 @@ pub fn write_evidence(prop: &dyn Property, tier: Tier, seed: u64, out: &Outcome,
 
 /// run, report, write evidence; returns the process exit code
 pub fn main_run(prop: &dyn Property, tier: Tier, seed: u64) -> i32 {
+    if tier == Tier::Thorough {
+        std::env::set_var("XSGV_TIER_THOROUGH", "1");
+    }
     let out = run_property(prop, tier, seed);
     let known = load_known();
     for (sig, (n, _)) in &out.stats.known {
@@ -516,6 +535,7 @@ pub fn main_replay(prop: &dyn Property, path: &str) -> i32 {
             c: unhex(t["c"].as_str().unwrap_or("")),
         };
         let mut st = Stats::default();
+        st.frozen = true;
         std::panic::set_hook(Box::new(|_| {}));
         let r = std::thread::scope(|scope| {
             std::thread::Builder::new()
